@@ -395,17 +395,25 @@ pub(crate) fn burn_tag(input: &[u8], inposp: &mut usize) -> Result<(), Error> {
     Ok(())
 }
 
-pub(crate) fn burn_key_and_value(input: &[u8], inposp: &mut usize) -> Result<(), Error> {
+// How deeply arrays and objects may nest inside a value that we skip over.
+// (Skipping recurses, so the depth of untrusted input has to be bounded.)
+const MAX_BURN_DEPTH: usize = 128;
+
+pub(crate) fn burn_key_and_value(
+    input: &[u8],
+    inposp: &mut usize,
+    depth: usize,
+) -> Result<(), Error> {
     verify_char(input, b'"', inposp)?;
     burn_string(input, inposp)?;
     eat_colon_with_whitespace(input, inposp)?;
-    burn_value(input, inposp)?;
+    burn_value_at_depth(input, inposp, depth)?;
     Ok(())
 }
 
 // from the character after the open brace
 // ending on the character following the close brace
-pub(crate) fn burn_object(input: &[u8], inposp: &mut usize) -> Result<(), Error> {
+pub(crate) fn burn_object(input: &[u8], inposp: &mut usize, depth: usize) -> Result<(), Error> {
     loop {
         eat_whitespace_and_commas(input, inposp);
 
@@ -415,13 +423,17 @@ pub(crate) fn burn_object(input: &[u8], inposp: &mut usize) -> Result<(), Error>
             return Ok(());
         }
 
-        burn_key_and_value(input, inposp)?;
+        burn_key_and_value(input, inposp, depth)?;
     }
 }
 
 // from the character after the open bracket
 // ending on the character following the close bracket
 pub(crate) fn burn_array(input: &[u8], inposp: &mut usize) -> Result<(), Error> {
+    burn_array_at_depth(input, inposp, 1)
+}
+
+fn burn_array_at_depth(input: &[u8], inposp: &mut usize, depth: usize) -> Result<(), Error> {
     loop {
         eat_whitespace_and_commas(input, inposp);
 
@@ -431,11 +443,15 @@ pub(crate) fn burn_array(input: &[u8], inposp: &mut usize) -> Result<(), Error> 
             return Ok(());
         }
 
-        burn_value(input, inposp)?;
+        burn_value_at_depth(input, inposp, depth)?;
     }
 }
 
 pub(crate) fn burn_value(input: &[u8], inposp: &mut usize) -> Result<(), Error> {
+    burn_value_at_depth(input, inposp, 0)
+}
+
+fn burn_value_at_depth(input: &[u8], inposp: &mut usize, depth: usize) -> Result<(), Error> {
     if *inposp >= input.len() {
         return Err(InnerError::JsonBad("Too short burning an unused JSON value", *inposp).into());
     }
@@ -444,13 +460,16 @@ pub(crate) fn burn_value(input: &[u8], inposp: &mut usize) -> Result<(), Error> 
             *inposp += 1;
             burn_string(input, inposp)?
         }
+        b'[' | b'{' if depth >= MAX_BURN_DEPTH => {
+            return Err(InnerError::JsonBad("Nested too deeply", *inposp).into());
+        }
         b'[' => {
             *inposp += 1;
-            burn_array(input, inposp)?
+            burn_array_at_depth(input, inposp, depth + 1)?
         }
         b'{' => {
             *inposp += 1;
-            burn_object(input, inposp)?
+            burn_object(input, inposp, depth + 1)?
         }
         b't' => burn_true(input, inposp)?,
         b'f' => burn_false(input, inposp)?,
